@@ -18,7 +18,9 @@ HEADER = """
 
 CTYPE = {"float32": "float", "float64": "double", "float": "double", "complex64": "std::complex<float>", "complex128": "std::complex<double>", "complex": "std::complex<double>", "boolean": "bool"}
 NPTYPE = {"float32": np.float32, "float64": np.float64, "float": np.float64, "complex64": np.complex64, "complex128": np.complex128, "complex": np.complex128, "boolean": np.uint8}
-FLAGS = ["-O1", "-ffp-contract=off", "-fno-fast-math", "-shared", "-fPIC", "-w"]
+# -frounding-math: libm calls on compile-time constants must reach the libm the reference calls (g++ would fold e.g.
+# std::expm1(1.0f) with MPFR, 1 ULP away from the run-time expm1f; with -frounding-math inexact results are not folded)
+FLAGS = ["-O1", "-ffp-contract=off", "-fno-fast-math", "-frounding-math", "-shared", "-fPIC", "-w"]
 
 
 def build_dir():
